@@ -219,7 +219,7 @@ func (w *asWorld) checkSubmission(c *asCert) {
 			t.add(wireExitHash(e))
 		}
 		if t.root() != newR {
-			w.fail(fmt.Sprintf("[C03] certificate %d: appending its %d exits to the tree of its previous exit root (%d leaves) does not give its new exit root %s",
+			w.fail(fmt.Sprintf("[C03,C02] certificate %d: appending its %d exits to the tree of its previous exit root (%d leaves) does not give its new exit root %s",
 				c.id, len(q.BridgeExits), pc, w.lerName(newR)))
 		}
 		r.Case(fmt.Sprintf("root:%d+%d", pc%4, len(q.BridgeExits)))
